@@ -1,6 +1,6 @@
 (* C07 — ensemble members are isolated; controls are shared exactly per scenario tree. *)
-From Coq Require Import ZArith QArith List Bool Arith.
-From RT Require Import Xq Interp Expr Transcribe Transcribe_proofs.
+From Coq Require Import ZArith QArith List Bool Arith Permutation.
+From RT Require Import Xq Interp Expr Transcribe Transcribe_proofs ControlTree ControlTree_proofs.
 Import ListNotations.
 Open Scope Q_scope.
 
@@ -41,3 +41,17 @@ Theorem C07_default_sharing :
   forall P m m' j, (nsa P <= j)%nat -> var_start P m j = var_start P m' j.
 Proof. exact controls_shared. Qed.
 Print Assumptions C07_default_sharing.
+
+(* ControlTreeMixin: whatever the forecasts (distances) and the branching factor, the children of a
+   branch partition its members - every member follows exactly one child, no member is lost or shared *)
+Theorem C07_children_partition :
+  forall k (d : nat -> nat -> Q) members, NoDup members -> members <> [] -> (0 < k)%nat ->
+    Permutation (concat (children k d members)) members.
+Proof. exact children_partition. Qed.
+Print Assumptions C07_children_partition.
+
+Theorem C07_children_cover :
+  forall k d members m, NoDup members -> members <> [] -> (0 < k)%nat ->
+    (In m members <-> exists c, In c (children k d members) /\ In m c).
+Proof. exact children_cover. Qed.
+Print Assumptions C07_children_cover.
